@@ -357,7 +357,7 @@ def variant(c, adv, rng, how):
 
 MUTATIONS = ["redef-bounds", "redef-sign", "redef-value", "redef-children", "redef-class", "redef-copy",
              "leaf-bounds", "byid-same", "byid-other", "dup-same", "dup-copy", "dup-leaf", "dup-leaf-bounds",
-             "cycle-self", "cycle-deep", "cycle-cross", "gen-coincide-other", "gen-coincide-same", "gen-coincide-leaf",
+             "cycle-self", "cycle-deep", "cycle-cross", "gen-coincide-other", "gen-coincide-same", "gen-coincide-leaf", "gen-coincide-concat",
              "childless-redef", "share-object", "share-leaf"]
 
 def mutate(top, adv, rng, mut, collide=False):
@@ -460,6 +460,21 @@ def mutate(top, adv, rng, mut, collide=False):
         b = {"k": rng.choice(["All", "Any"]), "ch": [{"k": "str", "id": i}, adv.fresh_leaf()], "id": j}
         top = attach(top, a, adv, rng)
         return attach(top, b, adv, rng)
+    if mut == "gen-coincide-concat":
+        # two unnamed sub-propositions over DIFFERENT leaves whose generated ids coincide: the id generator hashes the
+        # unseparated concatenation of the child ids (+ value + sign), and "uv"+"w" == "u"+"vw"
+        adv.n += 1
+        u, v, w = f"u{adv.n}", f"v{adv.n}", f"w{adv.n}"
+        k = rng.choice(["All", "Any"]) if rng.random() < 0.7 else "AtLeast"
+        def mk(ids):
+            r = {"k": k, "ch": [{"k": "str", "id": i} for i in ids], "id": None}
+            if k == "AtLeast": r["v"] = 1; r["s"] = None
+            return r
+        g1, g2 = mk([u + v, w]), mk([u, v + w])
+        if k == "All" and rng.random() < 0.5:
+            g2 = mk([u, v, w]) if False else g2
+        top = attach(top, g1, adv, rng)
+        return attach(top, g2, adv, rng, avoid=g1)
     if mut.startswith("gen-coincide-"):
         gens = [c for c in cs if c.get("id") is None and c["k"] in ("AtLeast", "AtMost", "All", "Any")]
         if not gens:
